@@ -115,7 +115,11 @@ func readerProgram(r *Rng, meta GraphMeta, d Dialect, n int) []string {
 			from = meta.Funcs
 		}
 		add("%s = M.get(%q)\n", x, pick(from))
-		switch r.Intn(37) {
+		switch r.Intn(39) {
+		case 37, 38:
+			// subset / superset / equality queries with the shared set on either side
+			add("attempt(lambda: probe(%s <= %s, %s < %s, %s.issubset(list(%s)), %s.issuperset(list(%s)), %s == %s, %s.isdisjoint([])))\n", x, x, x, x, x, x, x, x, x, x, x)
+			add("attempt(lambda: probe(sorted(%s), sorted(%s, reverse=True), %s.union(%s), %s & %s))\n", x, x, x, x, x, x)
 		case 35, 36:
 			// call a shared function and KEEP what it returns (a closure minted by a
 			// frozen closure shares that closure's cells): frozen at this module's end
